@@ -135,20 +135,63 @@ fn thread_work(tid: u64, creations: usize, record: bool) -> (Vec<u32>, Vec<u64>,
     (prios, got, model, ops)
 }
 
+/// Deterministic scenario with caller-assigned priorities (public field), most of them equal: for a fixed history
+/// the resulting shapes are a function of the priorities alone, so every thread must get exactly the shapes the same
+/// operations give when they run alone. Returns a fingerprint: the root key after every step and the final pre-order.
+fn fixed_priority_scenario(steps: usize) -> Vec<u64> {
+    let mut st = 0x1234_5678_9ABC_DEF1u64;
+    let mut out: Vec<u64> = Vec::with_capacity(steps + 64);
+    let mut t: Treap<KeyItem> = Treap::new();
+    let mut len = 0usize;
+    for i in 0..steps {
+        let mut single = Treap::from_item(item(i as u64));
+        single.root.as_mut().unwrap().priority = [5u32, 5, 5, 6, 4][(lcg(&mut st) % 5) as usize];
+        let pos = (lcg(&mut st) as usize) % (len + 1);
+        let (a, b) = std::mem::take(&mut t).split_at(pos);
+        t = Treap::merge(Treap::merge(a, single), b);
+        len += 1;
+        if len > 48 {
+            // keep it small: drop the front part
+            let (_a, b) = std::mem::take(&mut t).split_at(len / 2);
+            t = b;
+            len -= len / 2;
+        }
+        out.push(t.root().map(|x| x.key).unwrap_or(u64::MAX));
+    }
+    // pre-order of the final tree (iterative)
+    let mut stack: Vec<&TreapNode<KeyItem>> = Vec::new();
+    if let Some(r) = &t.root {
+        stack.push(r);
+    }
+    while let Some(n) = stack.pop() {
+        out.push(n.item.key);
+        if let Some(r) = &n.right {
+            stack.push(r);
+        }
+        if let Some(l) = &n.left {
+            stack.push(l);
+        }
+    }
+    out
+}
+
 fn mode_sanitizer(threads: usize, creations: usize) -> i32 {
     // staggered starts: a barrier, then each thread burns a different number of iterations first
     let barrier = Arc::new(Barrier::new(threads));
     let clock = Arc::new(AtomicU64::new(0)); // Relaxed stamps only: adds no happens-before edge
+    let alone = Arc::new(fixed_priority_scenario(creations.min(400)));
     let mut handles = Vec::new();
     for tid in 0..threads as u64 {
         let barrier = barrier.clone();
         let clock = clock.clone();
+        let alone = alone.clone();
         handles.push(std::thread::spawn(move || {
             barrier.wait();
             let stamp0 = clock.fetch_add(1, Ordering::Relaxed);
             let (_p, got, model, ops) = thread_work(tid + 1, creations, false);
+            let shapes_ok = fixed_priority_scenario(creations.min(400)) == *alone;
             let stamp1 = clock.fetch_add(1, Ordering::Relaxed);
-            (got == model, ops, stamp0, stamp1, got.len())
+            (got == model && shapes_ok, ops, stamp0, stamp1, got.len())
         }));
     }
     // the main thread creates nodes too, concurrently with the others
@@ -453,6 +496,81 @@ fn mode_stress(eng: &Engine, report: &mut Report) {
             }
         }
     }
+    // ---- a long-lived thread among many short-lived ones: the main thread keeps creating nodes while more than 64 other
+    // threads come and go; for the per-thread models its stream must simply continue the sequential stream 0
+    if matches!(model, SourceModel::PerThread | SourceModel::PerThreadSeeded) {
+        let mut pos = 2 * k; // the calibration consumed 2k draws of stream 0
+        let mut ok = true;
+        let mut short_lived = 0u64;
+        'outer: for batch in 0..12 {
+            let hs: Vec<_> = (0..8).map(|_| std::thread::spawn(|| draw_main(3))).collect();
+            for h in hs {
+                let _ = h.join();
+                short_lived += 1;
+            }
+            let mine = draw_main(40);
+            if pos + mine.len() > s0.len() {
+                break;
+            }
+            if mine[..] != s0[pos..pos + mine.len()] {
+                ok = false;
+                let first = (0..mine.len()).find(|&i| mine[i] != s0[pos + i]).unwrap_or(0);
+                report.violation(
+                    "priority_stream_not_sequential:long_lived_thread",
+                    Json::obj()
+                        .set("what", "a long-lived thread's priority stream stops being the sequential stream after other threads came and went")
+                        .set("short_lived_threads_so_far", short_lived)
+                        .set("batch", batch)
+                        .set("draw_index_in_its_stream", pos + first),
+                    vec!["--mode".into(), "stress".into()],
+                );
+                break 'outer;
+            }
+            pos += mine.len();
+        }
+        report.count("short_lived_threads_next_to_a_long_lived_one", short_lived);
+        let _ = ok;
+    }
+
+    // ---- shapes under caller-assigned priorities: several threads run the same fixed-priority scenario at once; every
+    // one of them must get exactly the shapes of the run alone (computed on this thread before any of them started)
+    {
+        let fixed_steps = 30_000usize;
+        let alone = Arc::new(fixed_priority_scenario(fixed_steps));
+        for rep_i in 0..3 {
+            let barrier = Arc::new(Barrier::new(6));
+            let hs: Vec<_> = (0..6)
+                .map(|_| {
+                    let alone = alone.clone();
+                    let b = barrier.clone();
+                    std::thread::spawn(move || {
+                        b.wait();
+                        let got = fixed_priority_scenario(fixed_steps);
+                        (0..got.len().min(alone.len())).find(|&i| got[i] != alone[i]).or(if got.len() != alone.len() { Some(0) } else { None })
+                    })
+                })
+                .collect();
+            for (tid, h) in hs.into_iter().enumerate() {
+                report.inc("fixed_priority_scenarios_compared");
+                match h.join() {
+                    Ok(None) => {}
+                    Ok(Some(step)) => {
+                        report.violation(
+                            "treap_shapes_differ_under_concurrency",
+                            Json::obj()
+                                .set("what", "with caller-assigned (mostly equal) priorities a thread's treap shapes - root after every step, final pre-order - differ from the same operations run alone")
+                                .set("thread", tid)
+                                .set("repetition", rep_i)
+                                .set("first_differing_step", step),
+                            vec!["--mode".into(), "stress".into()],
+                        );
+                    }
+                    Err(_) => report.violation("worker_panicked", Json::obj().set("phase", "fixed priorities"), vec!["--mode".into(), "stress".into()]),
+                }
+            }
+        }
+    }
+
     report.extra("workers", threads);
     report.extra("creations_per_thread", per_thread);
 }
